@@ -408,6 +408,9 @@ def mgm_jobs(tier, props):
     return jobs
 
 
+SWEEP_SCHEDULES = ("first", "last", "alt", "alt2", "alt3", "alt4")
+
+
 def sweep_jobs(tier, props, algos=("mgm",)):
     """Wide instance sweep under two canonical schedules (first / last enabled event): chain v0-v1-v2 with a unary
     constraint on v2, all {0,1,2}-valued tables for c12, a menu for c01; every initial assignment and random answer is
@@ -426,7 +429,7 @@ def sweep_jobs(tier, props, algos=("mgm",)):
                 for u in unary:
                     for mode in ("min", "max"):
                         spec = _spec(["v0", "v1", "v2"], doms, _cons([("v0", "v1"), ("v1", "v2"), ("v2",)], [a, b, u]), mode)
-                        for sched in ("first", "last"):
+                        for sched in SWEEP_SCHEDULES:
                             out.append({"spec": spec, "algo": algo, "params": {"stop_cycle": 4}, "props": list(props),
                                         "unit_menu": (0.5,) if algo == "mgm" else (0.0, 0.999999), "schedule": sched, "label": "sweep"})
     return out
